@@ -64,9 +64,14 @@ def main():
                 shutil.copy(src, os.path.join(wt, "out", f))
             elif f == "bin" and os.path.isdir(src):
                 shutil.copytree(src, os.path.join(wt, "out", "bin"))
-        demo = meta["demo_cmd"]
+        demo = meta["demo_cmd"].replace("/tmp/mut/%s" % os.path.basename(os.path.dirname(os.path.dirname(mdir))), wt)
+
+        def failed(rc, out):
+            import re as _re
+            return rc != 0 or _re.search(r"(?m)^(--- FAIL|FAIL|panic:)", out) is not None
         rc, out = sh(demo, cwd=wt, env=goenv())
         res["demo_clean_rc"] = rc
+        res["demo_clean_failed"] = failed(rc, out)
         res["demo_clean_tail"] = out[-600:]
         sh("git clean -fdq -e out . && git checkout -q -- .", cwd=wt)
         rc, out = sh("git apply %s" % os.path.join(mdir, "patch.diff"), cwd=wt)
@@ -77,6 +82,7 @@ def main():
         res["build_tail"] = out[-600:]
         rc, out = sh(demo, cwd=wt, env=goenv())
         res["demo_mutant_rc"] = rc
+        res["demo_mutant_failed"] = failed(rc, out)
         res["demo_mutant_tail"] = out[-1200:]
         # remove demo leftovers but keep the patch applied
         sh("git clean -fdq -e out .", cwd=wt)
@@ -125,8 +131,8 @@ def main():
             sh("git -C /repo worktree remove --force %s" % d)
             shutil.rmtree(d, ignore_errors=True)
         sh("git -C /repo worktree prune")
-    ok = (res.get("demo_clean_rc") == 0 and res.get("apply_rc") == 0 and res.get("build_rc") == 0
-          and res.get("demo_mutant_rc", 0) != 0 and not res.get("baseline_missing"))
+    ok = (res.get("demo_clean_failed") is False and res.get("apply_rc") == 0 and res.get("build_rc") == 0
+          and res.get("demo_mutant_failed") is True and not res.get("baseline_missing"))
     res["confirmed"] = bool(ok)
     if run_check:
         res["detected"] = res.get("check_rc") == 1 and any(l.startswith("VIOLATION") for l in res.get("check_verdict_lines", []))
